@@ -90,6 +90,9 @@ MUTANTS = [
     ("vt.contracts.reusable_policy", "update_from_tree", "cotengra/reusable.py", '                if new_con["score"] < old_con["score"]:', '                if new_con["score"] > old_con["score"]:'),
     ("vt.contracts.core_slice", "ContractionTree.slice", "cotengra/core.py", "        sf = SliceFinder(\n            tree,", "        sf = SliceFinder(\n            self,"),
     ("vt.contracts.core_remove_ind,vt.contracts.legs_rules,vt.contracts.utils_maxcounter", "remove_ind", "cotengra/core.py", "            si = SliceInfo(ind not in tree.output, ind, 1, project)", "            si = SliceInfo(ind not in tree.output, ind, d, project)"),
+    ("vt.contracts.core_restore_ind,vt.contracts.core_reconfigure,vt.contracts.core_remove_ind,vt.contracts.legs_rules,vt.contracts.utils_maxcounter", "restore_ind", "cotengra/core.py", "        tree.multiplicity //= si.size", "        tree.multiplicity //= tree.size_dict[ind]"),
+    ("vt.contracts.core_restore_ind,vt.contracts.core_reconfigure,vt.contracts.core_remove_ind,vt.contracts.legs_rules,vt.contracts.utils_maxcounter", "restore_ind", "cotengra/core.py", "        si = tree.sliced_inds.pop(ind)", "        si = tree.sliced_inds.pop(ind)\n        tree.sliced_inds.clear()"),
+    ("vt.contracts.core_restore_ind,vt.contracts.core_reconfigure,vt.contracts.core_remove_ind,vt.contracts.legs_rules,vt.contracts.utils_maxcounter", "restore_ind", "cotengra/core.py", "        tree.already_optimized.clear()\n        tree.reset_contraction_indices()\n\n        return tree\n\n    restore_ind_", "        tree.already_optimized.clear()\n\n        return tree\n\n    restore_ind_"),
     ("vt.contracts.core_reconfigure,vt.contracts.core_remove_ind,vt.contracts.legs_rules,vt.contracts.utils_maxcounter", "subtree_reconfigure", "cotengra/core.py", "            subtree_rng = get_rng(seed) if rng is None else rng", "            subtree_rng = rng"),
     ("vt.contracts.hypergraph_ops", "HyperGraph.compress", "cotengra/hypergraph.py", "self.size_dict[e_keep] = min(new_size, chi)", "self.size_dict[e_keep] = new_size"),
     ("vt.contracts.hypergraph_ops", "neighborhood_compress_cost", "cotengra/hypergraph.py", "            if da > chi:", "            if da >= chi:"),
